@@ -37,7 +37,8 @@ Failures(e) ==
 
 (* state of the specification at the call, and after it *)
 Before(e) == H!Pre(IF e.i = 1 THEN H!Boot ELSE st, e.e)
-After(e) == H!Post(Before(e), e.i, e.e, e.mo, e.acc, ToSet(e.vk), ToSet(e.wk), ~e.ok)
+Seeded(e) == e.rnga # e.rngb
+After(e) == H!Post(Before(e), e.i, e.e, e.mo, e.acc, ToSet(e.vk), ToSet(e.wk), ~e.ok, Seeded(e))
 
 Drift(e) ==
     LET S == Before(e)
@@ -52,7 +53,7 @@ Drift(e) ==
   \cup (IF P.addrmap # {} /\ e.ama < e.amb THEN {"addrmap.kept"} ELSE {})
   \cup (IF e.ams > 0 /\ H!StaleAddr(S, vk, wk) = {} THEN {"addrmap.stale"} ELSE {})
   \cup (IF (e.ddba = 0) # (P.debugdb = {}) THEN {"debugdb.cleared"} ELSE {})
-  \cup (IF e.ok /\ e.iok /\ e.rnga # e.irnga THEN {"rng"} ELSE {})
+  \cup (IF e.ok /\ e.iok /\ Seeded(e) /\ e.rnga # e.irnga THEN {"rng"} ELSE {})
   \cup (IF H!ObservedKind(Obs(e), IsoOf(e)) \notin H!AllowedKinds(S, vk, wk, e.acc) THEN {"outcome"} ELSE {})
 
 Init == l = 1 /\ viol = {} /\ drift = {} /\ st = H!Boot /\ hist = <<>> /\ res = <<>>
